@@ -51,6 +51,7 @@ type feed struct {
 	Created          int64
 	batches          map[uint64]*batch
 	values           []*valEntry // newest first
+	prev             []*valEntry // the history before this block's batch added its value
 	lastStart        int64
 	lastState        string
 	reqSeen          int
@@ -140,13 +141,22 @@ func (m *Module) onOp(w *engine.World, tx *engine.TxRecord, op *engine.Op) {
 		var a editArgs
 		op.Decode(&a)
 		f := m.feeds[a.Name]
-		if f == nil || tx.Infra {
+		if f == nil {
 			return
 		}
 		if signer != f.Creator {
 			w.Hit("oraclefeed.stranger_attempt")
 		}
 		if !tx.OK() {
+			if len(tx.Plan.Ops) > 1 && signer == f.Creator {
+				// the edit ran on a branch that a later message of the transaction sank: nothing
+				// of it is in force ("the feed keeps only the newest latest-history values" keeps
+				// meaning the committed bound)
+				w.Hit("oraclefeed.edit_rolled_back")
+				if a.History != 0 && a.History != f.History {
+					w.Hit("oraclefeed.history_edit_rolled_back")
+				}
+			}
 			return
 		}
 		w.Hit("C17.authority_checks")
@@ -223,6 +233,7 @@ type pendingValue struct {
 	outputs   []string
 	batch     uint64
 	inTx      bool
+	thr       uint32
 	uncertain bool // the property does not decide whether a value must exist
 }
 
@@ -248,19 +259,37 @@ func (m *Module) complete(w *engine.World, f *feed, b *batch, inTx bool) *pendin
 	if answered > len(outs) {
 		w.Hit("oraclefeed.batch_with_failure_report")
 	}
-	// "each completed batch that met its response threshold": the threshold the batch was
-	// issued with. When an accepted edit changed the feed's threshold while the batch was open
-	// and the two disagree about this batch, the sentence does not decide.
-	meetsIssued := len(outs) >= int(b.Thr) && len(outs) > 0
-	meetsNow := len(outs) >= int(f.Threshold) && len(outs) > 0
-	if !meetsIssued && !meetsNow {
+	// "each completed batch that met its response threshold": ITS threshold - the one the
+	// batch was issued with. An edit of the feed's threshold accepted while the batch is open
+	// concerns the batches issued afterwards.
+	thr := b.Thr
+	thrKnown := thr != 0
+	if !thrKnown {
+		thr = f.Threshold // batch first seen after the block that issued it
+	}
+	changed := thrKnown && b.Thr != f.Threshold
+	meets := len(outs) >= int(thr) && len(outs) > 0
+	if changed {
+		w.Hit("oraclefeed.threshold_changed_mid_batch")
+		m.thrMid[f.Name] = true
+		// the valid responses lie between the two thresholds: the batch's own threshold and
+		// the feed's current one disagree about it
+		if meets != (len(outs) >= int(f.Threshold) && len(outs) > 0) {
+			if meets {
+				w.Hit("oraclefeed.threshold_raised_mid_batch_decides")
+			} else {
+				w.Hit("oraclefeed.threshold_lowered_mid_batch_decides")
+			}
+		}
+	}
+	if !meets {
 		w.Hit("oraclefeed.batch_below_threshold")
+		m.below[f.Name] = true
 		return nil
 	}
-	pv := &pendingValue{fn: f.Func, outputs: outs, batch: b.N, inTx: inTx}
-	pv.ex = expect(f.Func, f.Path, outs, int(b.Thr))
-	if meetsIssued != meetsNow {
-		w.Hit("oraclefeed.threshold_changed_mid_batch")
+	pv := &pendingValue{fn: f.Func, outputs: outs, batch: b.N, inTx: inTx, thr: thr}
+	pv.ex = expect(f.Func, f.Path, outs, int(thr))
+	if !thrKnown && b.Thr != f.Threshold {
 		pv.uncertain = true
 	}
 	if pv.ex.allowNone {
@@ -269,7 +298,7 @@ func (m *Module) complete(w *engine.World, f *feed, b *batch, inTx bool) *pendin
 	if pv.ex.ambiguous {
 		w.Hit("oraclefeed.batch_with_non_numeric")
 	}
-	if len(outs) == int(b.Thr) {
+	if len(outs) == int(thr) {
 		w.Hit("oraclefeed.threshold_met_exactly")
 	}
 	return pv
@@ -434,11 +463,24 @@ func (m *Module) OnCommit(w *engine.World) {
 	m.checkStateIndex(w)
 	m.notePriced(w, svc)
 	m.msgs = map[string]bool{}
+	m.below, m.thrMid = map[string]bool{}, map[string]bool{}
 	m.cbs = nil
 
 	nv := 0
 	for _, n := range m.ord {
 		nv += len(m.feeds[n].values)
+	}
+	// feeds whose names are in prefix relation, both holding values, with different bounds
+	for _, a := range m.ord {
+		for _, b := range m.ord {
+			fa, fb := m.feeds[a], m.feeds[b]
+			if a != b && strings.HasPrefix(b, a) && len(fa.values) > 0 && len(fb.values) > 0 {
+				w.Hit("oraclefeed.prefix_named_feeds_with_values")
+				if fa.History != fb.History {
+					w.Hit("oraclefeed.prefix_named_feeds_different_bounds")
+				}
+			}
+		}
 	}
 	w.State("oraclefeed", len(m.ord), nv, len(newVal))
 }
@@ -465,6 +507,7 @@ func (m *Module) addValue(w *engine.World, f *feed, newVal map[string]*pendingVa
 	}
 	// "appends exactly one value ... and the feed keeps only the newest latest-history values,
 	// newest first"
+	f.prev = append([]*valEntry{}, f.values...)
 	f.values = append([]*valEntry{{at: w.Time}}, f.values...)
 	if uint64(len(f.values)) > f.History {
 		f.values = f.values[:f.History]
@@ -486,8 +529,15 @@ func (m *Module) checkValues(w *engine.World, f *feed, pv *pendingValue, edited 
 		what = "batch-completed-and-edited"
 	case pv != nil:
 		what = "batch-completed"
+	case m.below[f.Name] && edited:
+		what = "batch-below-threshold-and-edited"
+	case m.below[f.Name]:
+		what = "batch-below-threshold"
 	case edited:
 		what = "edited"
+	}
+	if m.thrMid[f.Name] {
+		what += "/threshold-edited-mid-batch"
 	}
 	// "the feed keeps only the newest latest-history values"
 	if uint64(len(chain)) > f.History {
@@ -512,6 +562,65 @@ func (m *Module) checkValues(w *engine.World, f *feed, pv *pendingValue, edited 
 		if len(chain) > 0 && chain[0].Timestamp.Equal(w.Time) {
 			m.judge(w, f, pv, chain[0].Data)
 		}
+		resync()
+		return
+	}
+	// which of the listed values are new in this block? (block times strictly increase, so the
+	// entries known before this block are told apart by their stamps)
+	before := f.values
+	if pv != nil {
+		before = f.prev
+	}
+	known := map[int64]bool{}
+	for _, e := range before {
+		known[e.at.UnixNano()] = true
+	}
+	fresh := 0
+	for _, v := range chain {
+		if !known[v.Timestamp.UnixNano()] {
+			fresh++
+		}
+	}
+	if fresh > btoi(pv != nil) {
+		// more new values than batches completed: do they belong to a feed whose name is in prefix
+		// relation with this one? (the model of every feed is from before this block's comparison
+		// only for the feeds compared earlier; stamps and value strings decide)
+		foreign := ""
+		for _, v := range chain {
+			if known[v.Timestamp.UnixNano()] || (pv != nil && v.Timestamp.Equal(w.Time)) {
+				continue
+			}
+			for _, on := range m.ord {
+				o := m.feeds[on]
+				if o == f || !(strings.HasPrefix(o.Name, f.Name) || strings.HasPrefix(f.Name, o.Name)) {
+					continue
+				}
+				for _, e := range o.values {
+					if e.at.Equal(v.Timestamp) && (e.seen == v.Data || e.seen == "") {
+						foreign = o.Name
+					}
+				}
+			}
+		}
+		if foreign != "" {
+			// "the feed keeps only the newest latest-history values" - its own
+			w.Violate("C17", "history/values-of-another-feed/prefix-related-name", "the feed-value query of %s lists %d values after block %d, among them values of feed %s (same stamps and values): %s",
+				f.Name, len(chain), w.Height, foreign, renderValues(chain))
+			resync()
+			return
+		}
+	}
+	switch {
+	case pv != nil && fresh == 0:
+		// "each completed batch that met its response threshold appends exactly one value"
+		w.Violate("C17", "history/value-missing/"+what, "feed %s: batch %d completed in block %d with %d valid response(s), threshold %d when it was issued: no value was appended (the oracle module's response callback fired %d time(s) without error for this feed in this block); valid responses: %s",
+			f.Name, pv.batch, w.Height, len(pv.outputs), pv.thr, fired, strings.Join(pv.outputs, " "))
+		resync()
+		return
+	case pv == nil && fresh > 0:
+		// conversely: nothing but a completed batch that met its threshold appends a value
+		w.Violate("C17", "history/value-unexpected/"+what, "feed %s lists %d value(s) after block %d that were not there before, although no batch of it that met its threshold completed in this block (%s; the oracle module's response callback fired %d time(s) without error for this feed in this block)",
+			f.Name, fresh, w.Height, what, fired)
 		resync()
 		return
 	}
@@ -546,6 +655,22 @@ func (m *Module) checkValues(w *engine.World, f *feed, pv *pendingValue, edited 
 			e.seen = v.Data
 		}
 	}
+}
+
+func renderValues(vs []oracletypes.FeedValue) string {
+	var b strings.Builder
+	for i, v := range vs {
+		if i == 8 {
+			b.WriteString("...")
+			break
+		}
+		d := v.Data
+		if len(d) > 24 {
+			d = d[:24] + ".."
+		}
+		fmt.Fprintf(&b, "%s@%s ", d, v.Timestamp.UTC().Format("15:04:05.000000000"))
+	}
+	return b.String()
 }
 
 // judge compares a freshly stored value with the exact aggregate of the valid responses.
